@@ -282,6 +282,8 @@ pub struct NNode {
     pub changed: bool,
     pub links_seen: usize,
     pub join_worker: Option<Worker>,
+    /// the process is up (a node that is not started yet refuses connections)
+    pub started: bool,
 }
 
 pub struct Link {
@@ -374,7 +376,7 @@ impl NetWorld {
             let node = Node::start(ctx, &node_name(i), pids[i]);
             let loops = Loops::new(&node);
             names.push(node_name(i));
-            nodes.push(NNode { node, loops, repl_q: VecDeque::new(), sup_q: VecDeque::new(), alive: true, changed: false, links_seen: 0, join_worker: None });
+            nodes.push(NNode { node, loops, repl_q: VecDeque::new(), sup_q: VecDeque::new(), alive: true, changed: false, links_seen: 0, join_worker: None, started: false });
         }
         NetWorld { nodes, links: vec![], clients: vec![], names, problems: vec![], counters: BTreeMap::new(), steps: 0, traffic: vec![] }
     }
@@ -523,7 +525,7 @@ impl NetWorld {
             }
         }
         // the short `join` connections a starting node opens are protocol traffic too
-        let msgs_pending = !self.message_transitions().is_empty() || self.clients.iter().any(|c| c.eof_at_end && !c.done && self.nodes[c.node].alive);
+        let msgs_pending = !self.message_transitions().is_empty() || self.clients.iter().any(|c| c.eof_at_end && !c.done && self.nodes[c.node].alive && c.worker.state() == WState::Idle);
         for (name, node, site) in self.parked() {
             if site_is_initial_sleep(&site) {
                 // the 1 s start-up sleep is as long as the election timeout: messages are faster
@@ -728,8 +730,21 @@ impl NetWorld {
                 self.links[li].handle.close();
             }
         }
-        // give the peers' link threads a moment to run their end-of-link code
-        std::thread::sleep(Duration::from_millis(5));
+        // the peers' link threads run their end-of-link code (a primary forgets the member):
+        // wait for it instead of guessing a delay, so that the world stays deterministic
+        let dead_name = self.names[i].clone();
+        for li in 0..self.links.len() {
+            if self.links[li].to == i && self.links[li].handle.is_primary {
+                let from = self.links[li].from;
+                if !self.nodes[from].alive {
+                    continue;
+                }
+                let t0 = Instant::now();
+                while self.nodes[from].node.dbs.has_cluster_memeber(&dead_name) && t0.elapsed() < Duration::from_secs(5) {
+                    std::thread::sleep(Duration::from_micros(200));
+                }
+            }
+        }
         self.pump();
         Ok(())
     }
@@ -916,11 +931,13 @@ pub fn settled_cluster_clocked(n: usize, shared_clock: bool) -> Result<NetWorld,
     let mut w = NetWorld::new_clocked(n, &pids, shared_clock);
     // n1 starts alone: its join thread finds nobody and wins
     let jw = Worker::spawn("join-n1", &w.nodes[0].node, false);
+    w.nodes[0].started = true;
     w.nodes[0].join_worker = Some(jw);
     w.nodes[0].join_worker.as_ref().unwrap().run(WCmd::InitialElection)?;
     w.pump();
     w.run_to_quiescence(2000)?;
     for i in 1..n {
+        w.nodes[i].started = true;
         // node i starts: ask_to_join_all_replicas = a short connection to every peer in address order
         for p in 0..i {
             let c = w.add_client(p, &[&format!("auth {} {}", USER, PWD), &format!("join {}", node_name(i)), "<eof>"], true);
@@ -1024,6 +1041,8 @@ pub fn explore_net(
                     w.pump();
                     let mut path: Vec<T> = vec![];
                     let mut own_keys: Vec<u128> = vec![];
+                    // enabled sets of the states on this path (for the fairness test of cycles)
+                    let mut own_enabled: Vec<Vec<T>> = vec![];
                     stats.lock().unwrap().replays += 1;
                     // replay the prefix
                     for &c in prefix.iter() {
@@ -1034,6 +1053,7 @@ pub fn explore_net(
                             return r;
                         }
                         let t = en[c].clone();
+                        own_enabled.push(en.clone());
                         w.apply(&t)?;
                         path.push(t);
                         own_keys.push(crate::util::hash128(&w.key()));
@@ -1082,14 +1102,30 @@ pub fn explore_net(
                             }
                         }
                         let t = en[0].clone();
+                        own_enabled.push(en.clone());
                         w.apply(&t)?;
                         stats.lock().unwrap().transitions += 1;
                         path.push(t);
                         choices.push(0);
                         let k = crate::util::hash128(&w.key());
-                        if own_keys.contains(&k) || k == k0 {
+                        // own_keys[i] is the state after path[i]; the state before path[0] is the start
+                        let first = if prefix.is_empty() && k == k0 { Some(0) } else { own_keys.iter().position(|x| *x == k).map(|i| i + 1) };
+                        if let Some(from) = first {
                             stats.lock().unwrap().cycles += 1;
-                            findings.lock().unwrap().push(NetFinding { clause: "cycle".into(), detail: format!("the world returned to a state it had been in on this path after {} steps", path.len()), path: path.clone() });
+                            // the cycle path[from..] can repeat forever; it is a fair execution only
+                            // if nothing stays enabled all the way round without being taken
+                            let seg_taken: Vec<&T> = path[from..].iter().collect();
+                            let mut always: Vec<T> = own_enabled[from].clone();
+                            for e in own_enabled[from..].iter() {
+                                always.retain(|t| e.contains(t));
+                            }
+                            always.retain(|t| !seg_taken.contains(&t));
+                            // a poll-loop iteration advances the waiter's (hidden) timeout counter:
+                            // a cycle through a Wake is not the same state coming back
+                            let has_wake = seg_taken.iter().any(|t| matches!(t, T::Wake(_) | T::Timeout(_)));
+                            if always.is_empty() && !has_wake {
+                                findings.lock().unwrap().push(NetFinding { clause: "livelock".into(), detail: format!("a fair cycle of {} transitions: the cluster can exchange these messages forever without any node's turn being skipped; cycle {:?}", path.len() - from, path_str(&path[from..])), path: path.clone() });
+                            }
                             break;
                         }
                         own_keys.push(k);
@@ -1143,14 +1179,15 @@ impl NetWorld {
         };
         let loops = Loops::new(&node);
         let seen = node.ctx.links.lock().unwrap().len();
-        self.nodes[i] = NNode { node, loops, repl_q: VecDeque::new(), sup_q: VecDeque::new(), alive: true, changed: false, links_seen: seen, join_worker: None };
+        self.nodes[i] = NNode { node, loops, repl_q: VecDeque::new(), sup_q: VecDeque::new(), alive: true, changed: false, links_seen: seen, join_worker: None, started: true };
         Ok(())
     }
 
     /// what main.rs does after start-up: ask every peer to let us join, then the initial election
     pub fn join_cluster(&mut self, i: usize) -> Result<(), String> {
+        self.nodes[i].started = true;
         for p in 0..self.nodes.len() {
-            if p != i && self.nodes[p].alive {
+            if p != i && self.nodes[p].alive && self.nodes[p].started {
                 self.add_client(p, &[&format!("auth {} {}", USER, PWD), &format!("join {}", node_name(i)), "<eof>"], true);
             }
         }
